@@ -137,7 +137,7 @@ def source(plan):
 
 # ----------------------------------------------------------------------------- generation
 
-INT_VALUES = [3, 0, 12, "5", {"$b": "6"}, 7.0, "zz", [1, 2], None, {"$set": [1, 2]}, -4, "-2"]
+INT_VALUES = [3, 0, 12, "5", {"$b": "6"}, 7.0, "zz", [1, 2], None, {"$set": [1, 2]}, -4, "-2", True, False]
 STR_VALUES = ["s", 5, {"$b": "x"}, None, ["q"], {"a": 1}]
 
 
@@ -319,10 +319,11 @@ def _val(v):
 
 def conforms(kind, v):
     t = FIELD_INFO[kind]["type"]
+    # (exactly the declared type: a bool is converted to 1 / 0 at initialization, so it must be on assignment too)
     if t == "int":
-        return isinstance(v, int)
+        return type(v) is int
     if t == "posint":
-        return isinstance(v, int) and v >= 0
+        return type(v) is int and v >= 0
     if t == "str":
         return isinstance(v, str)
     if t == "leaf":
